@@ -9,6 +9,7 @@
 //   - expiry-frame: the same without the trimming (it catches up through ordinary transaction files);
 //   - release-without-primary: the holder gives the lock back while there is no primary to tell (it went away and
 //     comes back later);
+//   - interrupted-release: the release is interrupted while it waits for a local reader and retried afterwards;
 //   - failed-promotion: no halt lock at all - the replica wins the lease when the primary is demoted, but the step
 //     right after the acquisition (reading the cluster ID from the lease service) fails every time, so it gives the
 //     lease back each time and the former primary takes over again.
@@ -202,6 +203,38 @@ func runHalt(t *testing.T, c HaltCase) (res HaltResult) {
 			if !c.WAL {
 				rd.DropRead(false) // a rollback-mode writer could not get past the reader's SHARED lock
 			}
+		case "interrupted-release":
+			// The holder gives the lock back while a local connection is reading: the release has to wait for the reader
+			// (it checkpoints first) and is interrupted meanwhile (a signal: the unlock returns EINTR and nothing has been
+			// released). The application retries the unlock once the reader is gone, or closes the file. After that it
+			// holds nothing - and neither does the node.
+			if err := acquire(); err != nil {
+				viol("C13/acquire-failed", "acquire: %v", err)
+				return
+			}
+			rd = pager.NewConn(R.M, "db", 55, ps)
+			if err := rd.HoldRead(c.WAL); err != nil {
+				res.Harness = "reader on the replica: " + err.Error()
+				return
+			}
+			ictx, icancel := context.WithCancel(context.Background()) // a FUSE INTERRUPT cancels the request's context
+			tm := time.AfterFunc(time.Second, icancel)
+			ierr := lockFile.UnlockCtx(ictx, uint64(litefs.LockTypeHalt), uint64(litefs.LockTypeHalt))
+			tm.Stop()
+			icancel()
+			rd.DropRead(c.WAL)
+			rd.Close()
+			rd = nil
+			rerr := lockFile.Unlock(uint64(litefs.LockTypeHalt), uint64(litefs.LockTypeHalt))
+			_ = lockFile.Close()
+			res.Class = fmt.Sprintf("interrupted=%v retry-error=%v ", lab.IsErrno(ierr, syscall.EINTR), rerr != nil)
+			if rerr != nil {
+				viol("C13/release-failed", "the retried release failed: %v", rerr)
+			}
+			lab.Settle(time.Second)
+			if id := P.DB("db").VerifHaltLockID(); id != 0 && rerr == nil {
+				viol("C13/halt-survives-release", "the primary still holds halt lock %d after a release that reported success", id)
+			}
 		case "release-without-primary":
 			if err := acquire(); err != nil {
 				viol("C13/acquire-failed", "acquire: %v", err)
@@ -316,7 +349,7 @@ func haltPart(run interface {
 }, pool poolRunner) map[string]any {
 	var cases []HaltCase
 	for _, wal := range []bool{false, true} {
-		for _, k := range []string{"acquire-timeout", "expiry-snapshot", "expiry-frame", "failed-promotion", "release-without-primary"} {
+		for _, k := range []string{"acquire-timeout", "expiry-snapshot", "expiry-frame", "failed-promotion", "release-without-primary", "interrupted-release"} {
 			cases = append(cases, HaltCase{Halt: k, WAL: wal})
 		}
 	}
